@@ -141,21 +141,37 @@ func help1(c *Ctx) {
 				if b, ok := fieldOf(e, "LongDesc"); ok && b == ssa.Value(recv) {
 					nLong++
 					p := phi.Block().Preds[i]
-					if !ir.HoldsAt(longP, true, p) {
+					holds := func(v ssa.Value, want bool) bool {
+						return ir.HoldsAt(v, want, p) || ir.HoldsOnEdge(v, want, p, phi.Block())
+					}
+					if !holds(longP, true) {
 						good = false
 					}
-					// len(LongDesc) > 0
+					// LongDesc is not empty: an outcome of a length or emptiness test that the empty string cannot produce
 					g2 := false
+					isLong := func(v ssa.Value) bool {
+						b, ok := fieldOf(v, "LongDesc")
+						return ok && b == ssa.Value(recv)
+					}
 					ir.Instrs(fn, func(in2 ssa.Instruction) {
 						bo, ok := in2.(*ssa.BinOp)
 						if !ok {
 							return
 						}
-						if z, isC := ir.ConstInt(bo.Y); isC && z == 0 && bo.Op == token.GTR {
+						if z, isC := ir.ConstInt(bo.Y); isC {
 							if lc, isCall := bo.X.(*ssa.Call); isCall {
-								if b, ok := fieldOf(lc.Call.Args[0], "LongDesc"); ok && b == ssa.Value(recv) && ir.HoldsAt(bo, true, p) {
-									g2 = true
+								if bi, isB := lc.Call.Value.(*ssa.Builtin); isB && bi.Name() == "len" && isLong(lc.Call.Args[0]) {
+									for _, want := range []bool{true, false} {
+										if o, okO := lenCmp(bo.Op, 0, z); okO && o != want && holds(bo, want) {
+											g2 = true
+										}
+									}
 								}
+							}
+						}
+						if sv, isS := ir.ConstString(bo.Y); isS && sv == "" && isLong(bo.X) {
+							if (bo.Op == token.NEQ && holds(bo, true)) || (bo.Op == token.EQL && holds(bo, false)) {
+								g2 = true
 							}
 						}
 					})
@@ -193,7 +209,17 @@ func help1(c *Ctx) {
 				continue
 			}
 			// printTabbedRow(w, s1, s2): s2 = joinStrings(desc, env, value)
-			j, isJ := cv.Call.Args[2].(*ssa.Call)
+			a1, a2, must := cv.Call.Args[1], cv.Call.Args[2], cv.Block()
+			var viaProblems []string
+			if _, isCall := a2.(*ssa.Call); !isCall {
+				// rows gathered first, printed afterwards: (label, text) of a record appended once per item
+				r1, r2, mb, probs, okVia := rowsVia(cv, a1, a2)
+				if !okVia {
+					continue
+				}
+				a1, a2, must, viaProblems = r1, r2, mb, probs
+			}
+			j, isJ := a2.(*ssa.Call)
 			if !isJ {
 				continue
 			}
@@ -213,7 +239,7 @@ func help1(c *Ctx) {
 				continue
 			}
 			row, item = cv, it
-			var problems []string
+			problems := append([]string{}, viaProblems...)
 			// env part
 			if e, isCall := parts[1].(*ssa.Call); !isCall || ir.Static(e) == nil {
 				problems = append(problems, "the env part is missing")
@@ -230,7 +256,7 @@ func help1(c *Ctx) {
 					problems = append(problems, "the default part is not this item's DefaultValue")
 				}
 			}
-			if !nameFrom(it, cv.Call.Args[1]) {
+			if !nameFrom(it, a1) {
 				problems = append(problems, "the first column is not this item's name(s)")
 			}
 			hdr := rangeHeader(it.(*ssa.UnOp).X.(*ssa.IndexAddr).Index)
@@ -238,7 +264,7 @@ func help1(c *Ctx) {
 				problems = append(problems, w)
 			}
 			_, entry, _ := loopBody(hdr)
-			if entry != cv.Block() && ir.Reach(entry, map[*ssa.BasicBlock]bool{cv.Block(): true}, nil)[hdr] {
+			if entry != must && ir.Reach(entry, map[*ssa.BasicBlock]bool{must: true}, nil)[hdr] {
 				problems = append(problems, "an item can be skipped")
 			}
 			// the loop must be entered whenever the list is non-empty: its only guard is len(list) > 0
@@ -731,6 +757,54 @@ func help2(c *Ctx) {
 			}
 		})
 		if !ok {
+			// the text gathered in a strings.Builder: every iteration of the loop over strings.Fields(list)
+			// writes the element, and a result is that builder's String()
+			ir.Instrs(fn, func(in ssa.Instruction) {
+				v, isV := in.(ssa.Value)
+				if !isV {
+					return
+				}
+				sl, h, isR := rangeElemHeader(v)
+				if !isR {
+					return
+				}
+				fc := stdCall(sl, "strings", "Fields")
+				if fc == nil || !valEq(fc.Call.Args[0], envIn) {
+					return
+				}
+				if okB, _ := noBreak(h); !okB {
+					return
+				}
+				_, entry, _ := loopBody(h)
+				for _, call := range ir.Calls(fn) {
+					w, isCall := call.(*ssa.Call)
+					if !isCall {
+						continue
+					}
+					f := ir.Static(w)
+					if f == nil || f.Name() != "WriteString" || f.Pkg == nil || f.Pkg.Pkg.Path() != "strings" || len(w.Call.Args) != 2 || w.Call.Args[1] != v {
+						continue
+					}
+					if entry == nil || (entry != w.Block() && ir.Reach(entry, map[*ssa.BasicBlock]bool{w.Block(): true}, nil)[h]) {
+						continue // an iteration can pass without writing the element
+					}
+					for _, c2 := range ir.Calls(fn) {
+						sc, isC2 := c2.(*ssa.Call)
+						if !isC2 {
+							continue
+						}
+						if f2 := ir.Static(sc); f2 != nil && f2.Name() == "String" && f2.Pkg != nil && f2.Pkg.Pkg.Path() == "strings" && len(sc.Call.Args) == 1 && sc.Call.Args[0] == w.Call.Args[0] {
+							for _, r := range ir.ReturnPoints(fn) {
+								if mentionsValue(r.Results[0], sc, 0) {
+									ok = true
+								}
+							}
+						}
+					}
+				}
+			})
+		}
+		if !ok {
 			// strings.Join(strings.Fields(list), sep) mentioned by a result: every element is in it
 			ir.Instrs(fn, func(in ssa.Instruction) {
 				j, isCall := in.(*ssa.Call)
@@ -800,9 +874,251 @@ func resolveAlong(v ssa.Value, path []*ssa.BasicBlock) ssa.Value {
 	return v
 }
 
+// firstMatch: phi = the first element of the option's Names whose length passes a test, "" when there
+// is none (`for i := range names { if len(names[i]) == 2 { return names[i] } }; return ""`, inlined).
+// short: the test holds for length 2 and fails for longer names; long: the reverse.
+func firstMatch(fn *ssa.Function, phi *ssa.Phi) (short, long bool) {
+	if b, isB := phi.Type().Underlying().(*types.Basic); !isB || b.Kind() != types.String {
+		return
+	}
+	var elem ssa.Value
+	var hdr *ssa.BasicBlock
+	var found *ssa.BasicBlock
+	var names ssa.Value
+	for i, e := range phi.Edges {
+		if sv, isS := ir.ConstString(e); isS && sv == "" {
+			continue
+		}
+		sl, h, isR := rangeElemHeader(e)
+		if !isR || elem != nil {
+			return
+		}
+		if b, okF := fieldOf(sl, "Names"); !okF || b != ssa.Value(fn.Params[0]) {
+			return
+		}
+		elem, hdr, found, names = e, h, phi.Block().Preds[i], sl
+	}
+	if elem == nil || hdr == nil {
+		return
+	}
+	body, entry, exit := loopBody(hdr)
+	if body == nil || !body[found] {
+		return
+	}
+	// the only ways out of the loop: the found edge into the phi, and exhaustion
+	for b := range body {
+		for _, sc := range b.Succs {
+			if !body[sc] && sc != hdr && !(b == found && sc == phi.Block()) {
+				return
+			}
+		}
+	}
+	// "" only after exhaustion (or for an empty list)
+	cut := map[ir.Edge]bool{{From: hdr, To: exit}: true}
+	for _, e := range lenOnlyZeroEdgesLike(fn, names) {
+		cut[e] = true
+	}
+	reach := ir.Reach(fn.Blocks[0], nil, cut)
+	for i, e := range phi.Edges {
+		if e != elem && reach[phi.Block().Preds[i]] {
+			// reachable without exhausting the list: acceptable only through the found block itself
+			return
+		}
+	}
+	// the test: a comparison of len(elem) with a constant that decides the found edge; the next iteration
+	// is reached only when it fails
+	for _, ln := range []int64{2, 3, 6} {
+		leaf := func(v ssa.Value, path []*ssa.BasicBlock) (bool, bool) {
+			bo, ok := v.(*ssa.BinOp)
+			if !ok {
+				return false, false
+			}
+			if lc, isCall := bo.X.(*ssa.Call); isCall {
+				if bi, isB := lc.Call.Value.(*ssa.Builtin); isB && bi.Name() == "len" && sameElem(lc.Call.Args[0], elem) {
+					if kk, isC := ir.ConstInt(bo.Y); isC {
+						return lenCmp(bo.Op, ln, kk)
+					}
+				}
+			}
+			return false, false
+		}
+		// one iteration, from the loop entry to either the next iteration or the found edge
+		took, done := false, false
+		b := entry
+		for steps := 0; steps < 50 && !done; steps++ {
+			if len(b.Instrs) == 0 {
+				return false, false
+			}
+			var next *ssa.BasicBlock
+			switch x := b.Instrs[len(b.Instrs)-1].(type) {
+			case *ssa.If:
+				t, okL := leaf(x.Cond, nil)
+				if !okL {
+					return false, false
+				}
+				next = b.Succs[1]
+				if t {
+					next = b.Succs[0]
+				}
+			case *ssa.Jump:
+				next = b.Succs[0]
+			default:
+				return false, false
+			}
+			switch {
+			case next == hdr:
+				done = true
+			case b == found && next == phi.Block():
+				took, done = true, true
+			}
+			b = next
+		}
+		if !done {
+			return false, false
+		}
+		if ln == 2 {
+			short, long = took, !took
+		} else if (took && short) || (!took && long) {
+			return false, false
+		}
+	}
+	return
+}
+
+// rowsVia: the print call shows (rec.f1, rec.f2) for every rec of a list that a previous loop built by
+// appending exactly one record literal per iteration to an initially empty list. Returns the values the
+// literal's f1 and f2 are built from, the block of the append, and what is wrong with the printing loop.
+func rowsVia(print *ssa.Call, s1, s2 ssa.Value) (r1, r2 ssa.Value, appendBlock *ssa.BasicBlock, problems []string, ok bool) {
+	b1, f1, ok1 := ir.FieldLoad(s1)
+	b2, f2, ok2 := ir.FieldLoad(s2)
+	if !ok1 || !ok2 {
+		return
+	}
+	elemOf := func(b ssa.Value) (ssa.Value, ssa.Value) {
+		if al, isAl := b.(*ssa.Alloc); isAl {
+			// the range variable kept in memory: `row := rows[i]` written once per iteration
+			var whole []ssa.Value
+			for _, u := range *al.Referrers() {
+				if st, isSt := u.(*ssa.Store); isSt && st.Addr == ssa.Value(al) {
+					whole = append(whole, st.Val)
+					if st.Block() != print.Block() {
+						return nil, nil
+					}
+				}
+			}
+			if len(whole) != 1 {
+				return nil, nil
+			}
+			b = whole[0]
+		}
+		if ld, isLd := b.(*ssa.UnOp); isLd && ld.Op == token.MUL {
+			b = ld.X
+		}
+		if ia, isIA := b.(*ssa.IndexAddr); isIA {
+			return ia.X, ia.Index
+		}
+		return nil, nil
+	}
+	rows, idx := elemOf(b1)
+	rows2, idx2 := elemOf(b2)
+	if rows == nil || rows != rows2 || idx != idx2 || !isLoopIndexOver(idx, rows) {
+		return
+	}
+	acc, isPhi := rows.(*ssa.Phi)
+	if !isPhi {
+		return
+	}
+	h1 := acc.Block()
+	var lit *ssa.Alloc
+	nBack := 0
+	for i, e := range acc.Edges {
+		if !h1.Dominates(h1.Preds[i]) {
+			if mk, isMk := e.(*ssa.MakeSlice); isMk {
+				if z, isC := ir.ConstInt(mk.Len); !isC || z != 0 {
+					return
+				}
+			} else if !ir.IsNilConst(e) {
+				return
+			}
+			continue
+		}
+		nBack++
+		base, el, isApp := appendedSingle(e)
+		if !isApp || base != ssa.Value(acc) {
+			return // an iteration that appends nothing, or something else
+		}
+		ld, isLd := el.(*ssa.UnOp)
+		if !isLd || ld.Op != token.MUL {
+			return
+		}
+		al, isAl := ld.X.(*ssa.Alloc)
+		if !isAl {
+			return
+		}
+		lit = al
+		appendBlock = e.(*ssa.Call).Block()
+	}
+	if nBack != 1 || lit == nil {
+		return
+	}
+	fields, whole := litFields(lit)
+	if len(whole) != 0 || len(fields[f1]) != 1 || len(fields[f2]) != 1 {
+		return
+	}
+	h2 := rangeHeader(idx)
+	if h2 == nil {
+		return
+	}
+	if okB, w := noBreak(h2); !okB {
+		problems = append(problems, "the loop printing the gathered rows: "+w)
+	}
+	if _, entry, _ := loopBody(h2); entry != nil && entry != print.Block() && ir.Reach(entry, map[*ssa.BasicBlock]bool{print.Block(): true}, nil)[h2] {
+		problems = append(problems, "a gathered row can be left unprinted")
+	}
+	return fields[f1][0], fields[f2][0], appendBlock, problems, true
+}
+
+// sameElem: two reads v[i] of the same vector value at the same index value.
+func sameElem(a, b ssa.Value) bool {
+	if a == b {
+		return true
+	}
+	la, ok1 := a.(*ssa.UnOp)
+	lb, ok2 := b.(*ssa.UnOp)
+	if !ok1 || !ok2 || la.Op != token.MUL || lb.Op != token.MUL {
+		return false
+	}
+	ia, ok1 := la.X.(*ssa.IndexAddr)
+	ib, ok2 := lb.X.(*ssa.IndexAddr)
+	return ok1 && ok2 && ia.X == ib.X && ia.Index == ib.Index
+}
+
 func help2names(c *Ctx, fn *ssa.Function) {
 	c.Mark(fn)
 	key := Q(fn)
+	{
+		var sh, lg *ssa.Phi
+		ir.Instrs(fn, func(in ssa.Instruction) {
+			if phi, ok := in.(*ssa.Phi); ok {
+				s2, l2 := firstMatch(fn, phi)
+				if s2 && sh == nil {
+					sh = phi
+				}
+				if l2 && lg == nil {
+					lg = phi
+				}
+			}
+		})
+		if sh != nil && lg != nil {
+			start := sh.Block()
+			if sh.Block().Dominates(lg.Block()) {
+				start = lg.Block()
+			}
+			c.OK(key+":first-short-first-long", fn.Pos(), "keeps the first name of length 2 and the first longer name (two search loops over all names)")
+			help2format(c, fn, key, sh, lg, start, nil)
+			return
+		}
+	}
 	var n ssa.Value
 	var hdr *ssa.BasicBlock
 	ir.Instrs(fn, func(in ssa.Instruction) {
@@ -923,6 +1239,12 @@ func help2names(c *Ctx, fn *ssa.Function) {
 		return
 	}
 	c.OK(key+":first-short-first-long", fn.Pos(), "keeps the first name of length 2 and the first longer name, scanning all names")
+	help2format(c, fn, key, k.short, k.long, exit, []*ssa.BasicBlock{hdr})
+}
+
+// help2format: what is returned for each combination of "a short name exists" / "a long name exists".
+func help2format(c *Ctx, fn *ssa.Function, key string, kshort, klong *ssa.Phi, exit *ssa.BasicBlock, prefix []*ssa.BasicBlock) {
+	k := struct{ short, long *ssa.Phi }{kshort, klong}
 	for _, sc := range []struct{ s, l bool }{{true, true}, {true, false}, {false, true}, {false, false}} {
 		leaf := func(v ssa.Value, path []*ssa.BasicBlock) (bool, bool) {
 			bo, ok := v.(*ssa.BinOp)
@@ -955,7 +1277,7 @@ func help2names(c *Ctx, fn *ssa.Function) {
 			return false, false
 		}
 		skey := fmt.Sprintf("%s:result[short=%v,long=%v]", key, sc.s, sc.l)
-		rpath, last, ok := walkPath(exit, nil, []*ssa.BasicBlock{hdr}, leaf)
+		rpath, last, ok := walkPath(exit, nil, prefix, leaf)
 		ret, isRet := last.(*ssa.Return)
 		if !ok || !isRet {
 			c.Undecided(skey, fn.Pos(), "cannot evaluate the result for this case")
@@ -966,6 +1288,11 @@ func help2names(c *Ctx, fn *ssa.Function) {
 		ms, ml := mentionsValue(result, k.short, 0), mentionsValue(result, k.long, 0)
 		if cs, isC := ir.ConstString(result); isC {
 			c.Check(cs == "" && !sc.s && !sc.l, skey, fn.Pos(), "empty", "a constant is returned although a name exists")
+			continue
+		}
+		if (valEq(result, k.short) && !sc.s) || (valEq(result, k.long) && !sc.l) {
+			// the selection itself, which is empty in this case
+			c.Check(!sc.s && !sc.l, skey, fn.Pos(), "empty", "nothing is shown although a name exists")
 			continue
 		}
 		c.Check(ms == sc.s && ml == sc.l, skey, fn.Pos(), fmt.Sprintf("shows short=%v long=%v", ms, ml), fmt.Sprintf("shows short=%v long=%v", ms, ml))
